@@ -66,6 +66,9 @@ type Net struct {
 	// OnWrite is invoked before the server writes body bytes of a response (a slow or blocked client: scheduler yield
 	// point); may be nil.
 	OnWrite func(ctx context.Context, ex *Exchange)
+	// OnHeader is invoked whenever a handler reaches for the response headers (setting a cookie, a Location ...):
+	// one more place where a scheduled group may switch tasks inside a handler; may be nil.
+	OnHeader func(ctx context.Context, ex *Exchange)
 }
 
 func NewNet(store *Store) *Net {
@@ -82,9 +85,15 @@ type recorder struct {
 	// failAfter >= 0: the connection breaks after that many body bytes; the write reports a short count and an error
 	failAfter int
 	onWrite   func()
+	onHeader  func()
 }
 
-func (r *recorder) Header() http.Header { return r.hdr }
+func (r *recorder) Header() http.Header {
+	if r.onHeader != nil {
+		r.onHeader()
+	}
+	return r.hdr
+}
 func (r *recorder) WriteHeader(code int) {
 	r.ex.WriteHeaderCalls++
 	if r.wrote {
@@ -170,6 +179,10 @@ func (n *Net) Serve(from string, req *http.Request) (*Exchange, error) {
 		hook, ctx := n.OnWrite, sreq.Context()
 		rec.onWrite = func() { hook(ctx, ex) }
 	}
+	if n.OnHeader != nil {
+		hook, ctx := n.OnHeader, sreq.Context()
+		rec.onHeader = func() { hook(ctx, ex) }
+	}
 	func() {
 		defer func() {
 			if r := recover(); r != nil {
@@ -214,6 +227,10 @@ func (t *transport) RoundTrip(req *http.Request) (*http.Response, error) {
 	}
 	if err != nil {
 		return nil, err
+	}
+	if cerr := req.Context().Err(); cerr != nil {
+		// the client's context ended while the server was still busy: the client sees that, not the late answer
+		return nil, cerr
 	}
 	status, body, hdr := ex.Status, ex.RespBody, ex.RespHeader.Clone()
 	if t.n.Corrupt != nil {
